@@ -1,6 +1,10 @@
 package main
 
-import "go/types"
+import (
+	"go/types"
+
+	"golang.org/x/tools/go/ssa"
+)
 
 // Engine-side objects (contexts, timers) exposed through interface method calls.
 
@@ -53,3 +57,73 @@ func (e *Exec) zeroTime() Value {
 }
 
 func tt64(e *Exec, v uint64) *Term { return e.tt.BV(64, v) }
+
+func (e *Exec) newContext(parent Value) *GoObj {
+	return &GoObj{Kind: "context", ID: e.newID(), Attrs: map[string]Value{"parent": parent}}
+}
+
+func (e *Exec) noopFunc() Value {
+	f := e.harness.Pkg.Func("verifNoop")
+	if f == nil {
+		e.unsupported("harness package lacks verifNoop")
+	}
+	return f
+}
+
+func init() {
+	ctxT := func(e *Exec) types.Type {
+		// context.Context interface type from the program
+		for _, p := range e.prog.AllPackages() {
+			if p.Pkg.Path() == "context" {
+				return p.Type("Context").Type()
+			}
+		}
+		return nil
+	}
+	mkctx := func(e *Exec, o *GoObj) Value { return Iface{T: ctxObjType, V: o} }
+	_ = ctxT
+	intrinsics["context.Background"] = func(e *Exec, g *G, fn *ssa.Function, args []Value) (Value, bool) {
+		return mkctx(e, e.newContext(nil)), true
+	}
+	intrinsics["context.TODO"] = intrinsics["context.Background"]
+	withTimeout := func(e *Exec, g *G, fn *ssa.Function, args []Value) (Value, bool) {
+		o := e.newContext(args[0])
+		if len(args) > 1 {
+			o.Attrs["timeout"] = args[1]
+		}
+		e.ctxTimeouts = append(e.ctxTimeouts, o)
+		if e.hcfg != nil && e.hcfg.Timers {
+			ch := &ChanObj{ID: e.newID(), Cap: 0, Name: "ctx.Done"}
+			o.Attrs["done"] = ch
+			o.Attrs["err"] = Iface{T: errValType, V: e.sentinel("context.DeadlineExceeded")}
+			e.addTimer(ch, "ctx-deadline")
+		}
+		return Tuple{mkctx(e, o), e.noopFunc()}, true
+	}
+	intrinsics["context.WithTimeout"] = withTimeout
+	intrinsics["context.WithCancel"] = func(e *Exec, g *G, fn *ssa.Function, args []Value) (Value, bool) {
+		o := e.newContext(args[0])
+		return Tuple{mkctx(e, o), e.noopFunc()}, true
+	}
+	intrinsics["time.After"] = func(e *Exec, g *G, fn *ssa.Function, args []Value) (Value, bool) {
+		ch := &ChanObj{ID: e.newID(), Cap: 1, Name: "time.After"}
+		if e.hcfg != nil && e.hcfg.Timers {
+			e.addTimer(ch, "timer")
+		}
+		return ch, true
+	}
+	nilErr := func(e *Exec, g *G, fn *ssa.Function, args []Value) (Value, bool) { return Iface{}, true }
+	intrinsics["(*github.com/containerd/ttrpc.Client).Close"] = nilErr
+	intrinsics["(*github.com/containerd/ttrpc.Server).Close"] = nilErr
+}
+
+// ctxObjType: pseudo dynamic type of engine contexts
+var ctxObjType types.Type = types.NewPointer(types.NewNamed(
+	types.NewTypeName(0, nil, "symgo.contextObject", nil), types.NewStruct(nil, nil), nil))
+
+// addTimer registers a pseudo goroutine that fires (sends on / closes) ch at an arbitrary scheduling point.
+func (e *Exec) addTimer(ch *ChanObj, kind string) {
+	tg := &G{id: len(e.gs), name: kind, timer: ch, timerKind: kind}
+	tg.pending = &visOp{kind: "timer", desc: kind + " fires", enabled: func() bool { return !tg.done }}
+	e.gs = append(e.gs, tg)
+}
